@@ -173,7 +173,7 @@ Proof. exact roundtrip_v1_refuted. Qed.
 Print Assumptions C06_text_roundtrip_first_repair_refuted.
 
 (* ---- the lexer seam ------------------------------------------------------------------------------------------ *)
-From PV Require Import Proofs.C06SeamProofs Proofs.C06SeamCompile.
+From PV Require Import Base.Escape Proofs.C06SeamProofs Proofs.C06SeamCompile.
 
 (* ALL token lists whose tokens are well-formed (a text holds no "{{" and does not end in "{"; an action is
    its delimiters, with the trim markers the token says, around a body in which every "}", quote and line end
@@ -190,9 +190,8 @@ Print Assumptions C06_lexer_seam_wf.
    declarations, assignments and JS if/else, conditionals, case, each, while, mixin definitions, calls and
    blocks, doctype, blocks, comments), production AND debug mode: every token the compiler emits -- the main
    template, the mixin blocks and the mixin definitions -- is well-formed.  Domain (node_dom): expressions of
-   any shape and depth whose float literals are numbers and whose template literals have no double quote,
-   backslash or line feed in their literal parts; a buffered string literal does not end in "{"; an element
-   name does not end in "{" *)
+   any shape and depth (template literals included) whose float literals are numbers; an element name does
+   not end in "{" *)
 Theorem C06_compile_wf : forall (funcs : list bytes) (debug : bool) (nodes : list pnode) (ts : list tok),
   forallb node_dom nodes = true -> compile funcs debug nodes = Some ts -> wf_toks ts.
 Proof. exact compile_wf. Qed.
@@ -206,15 +205,33 @@ Theorem C06_lexer_seam_partial : forall (funcs : list bytes) (debug : bool) (nod
 Proof. exact lexer_seam. Qed.
 Print Assumptions C06_lexer_seam_partial.
 
-(* each of the four exclusions is forced: a program that violates only that one compiles, and the lexer cuts
-   the emitted source differently from the token view (or rejects it).  The first is a defect of the code
-   (F-C06-f: `= "a{"` followed by `= p` emits a{{{$p | __pug__html}}; the real engine fails to load it), the
-   fourth too (a template literal with a double quote in its literal part: unterminated quoted string); the
-   second is outside the pug grammar, the third an artefact of the model's JNumF *)
+(* both exclusions are forced: a program that violates only that one compiles, and the lexer cuts the emitted
+   source differently from the token view.  The first is outside the pug grammar, the second an artefact of
+   the model's JNumF *)
 Theorem C06_lexer_seam_refuted :
-  (exists ts, compile [] false prog_str_brace = Some ts /\ segment (show_toks ts) <> Some (map seg_of_tok (lexed ts))) /\
   (exists ts, compile [] false prog_name_brace = Some ts /\ segment (show_toks ts) <> Some (map seg_of_tok (lexed ts))) /\
-  (exists ts, compile [] false prog_numf = Some ts /\ segment (show_toks ts) <> Some (map seg_of_tok (lexed ts))) /\
-  (exists ts, compile [] false prog_tpl_quote = Some ts /\ segment (show_toks ts) <> Some (map seg_of_tok (lexed ts))).
+  (exists ts, compile [] false prog_numf = Some ts /\ segment (show_toks ts) <> Some (map seg_of_tok (lexed ts))).
 Proof. exact lexer_seam_refuted. Qed.
 Print Assumptions C06_lexer_seam_refuted.
+
+(* why the repairs F-C06-f and F-C01-h were needed.  The StringLiteral arm of renderExpression as it was
+   ([cwrap_str_v0]: the escaped value as one text): `= "a{"` followed by `= p` gives a{{{$p | __pug__html}},
+   which the lexer cuts differently from the token view (the engine failed to load it).  interpolate as it was
+   ([tpl_text_v0]: literal parts pasted between quotes, every "" deleted): a template literal whose literal
+   part is one double quote gives an action with an unterminated string (load error).  Both programs are in
+   node_dom now, so C06_lexer_seam_partial covers them *)
+Theorem C06_lexer_seam_unrepaired_refuted :
+  (exists ts2, compile [] false [PCode [SExpr (JId (B "p"))] true true] = Some ts2 /\
+     segment (show_toks (cwrap_str_v0 (B "a{") ++ ts2)) <> Some (map seg_of_tok (lexed (cwrap_str_v0 (B "a{") ++ ts2)))) /\
+  (exists t, tpl_text_v0 [] [inl (B """"); inr (JId (B "x"))] = Some t /\
+     segment (B "{{" ++ t ++ B " | __pug__html}}") = None) /\
+  forallb node_dom prog_str_brace = true /\ forallb node_dom prog_tpl_quote = true.
+Proof. exact lexer_seam_unrepaired_refuted. Qed.
+Print Assumptions C06_lexer_seam_unrepaired_refuted.
+
+(* a buffered string literal (`= "..."`, any bytes): the compiler never declines (it did for "{{" before the
+   repair), the tokens are well-formed, and their values, in order, are the escaped literal *)
+Theorem C06_code_literal : forall (funcs : list bytes) (raw : bool) (s : bytes),
+  exists ts, cwrap funcs raw (JStr s) = Some ts /\ toks_value ts = Some (escape s) /\ wf_toks ts.
+Proof. exact cwrap_str_total. Qed.
+Print Assumptions C06_code_literal.
